@@ -164,6 +164,44 @@ class SymDict:
         raise Unsupported("attribute %s of a symbolic dictionary" % attr)
 
 
+class SymItems:
+    """d.items() of a SymDict; supported consumer: a dict comprehension {k: v for k, v in d.items() if ...}"""
+
+    def __init__(self, sd):
+        self.sd = sd
+
+
+def comprehend(ev, node, env, items):
+    """{key_expr: value_expr for k, v in d.items() if cond}  over a symbolic dictionary:
+    present'[k] = present[k] and cond(k, v); the key expression must be the loop key itself"""
+    import ast as _ast
+    from .ev import Env
+    sd = items.sd
+    g = node.generators[0]
+    if len(node.generators) != 1 or not isinstance(g.target, _ast.Tuple) or len(g.target.elts) != 2:
+        raise Unsupported("dict comprehension shape over symbolic items")
+    kname, vname = g.target.elts[0].id, g.target.elts[1].id
+    if not (isinstance(node.key, _ast.Name) and node.key.id == kname):
+        raise Unsupported("dict comprehension re-keys a symbolic dictionary")
+    out = SymDict.from_concrete(sd.universe, {}, sd.name + "|filtered")
+    for k in sd.universe:
+        e = Env(env.module, ev, parent=env)
+        e.set(kname, k)
+        e.set(vname, PV(sd.value[k]))
+        cond = True
+        for c in g.ifs:
+            cv = ev.eval_cond(c, e)
+            if hasattr(cv, "truthy"):
+                cv = cv.truthy()
+            cond = band(cond, cv)
+        val = ev.eval(node.value, e)
+        out.present[k] = band(sd.present[k], cond)
+        out.value[k] = to_pv(val).t
+    # keys outside the universe: kept iff the filter keeps them -- unknown, so a fresh boolean
+    out.others = z3.And(B(sd.others), z3.Bool(sd.name + "!others_kept")) if sd.others is not False else False
+    return out
+
+
 class KeySet:
     """set(d.keys()) of a SymDict: supports difference with concrete sets and len()>0 tests"""
 
@@ -249,6 +287,8 @@ class _SDMethod:
             return None
         if self.name == "keys":
             return KeySet(sd)
+        if self.name == "items":
+            return SymItems(sd)
         if self.name == "copy":
             return sd.deepcopy(ev)
         raise Unsupported("method %s of a symbolic dictionary" % self.name)
